@@ -31,8 +31,9 @@ RULE = ('one evaluation = one seeded run: a single-client sequence of 10-120 Deq
 RULE += ' ' + "Sequences on a Deque obtained from a FanoutCache / DjangoCache also contain the parent's own clear / expire / cull / evict / set / delete calls."
 RULE += ' ' + "The parent's calls include looking the same name up again with another maxlen; in 40 % of the runs with a parent the name holds ':' '*' '?' '|' '/' and sibling objects under colliding spellings hold marker items."
 RULE += ' ' + 'Sequences include removals and changes made through a second live handle on the directory.'
+RULE += ' ' + 'Sequences assign items and append / pop from inside a loop over the deque.'
 ASSUMPTIONS = ['values compare by == as collections.deque does; NaN values are not used']
-PROBES = ('own_temporary_directory', 'lifecycle', 'maxlen_discard', 'from_fanout', 'from_django', 'parent_calls', 'named_with_special_characters', 'changed_through_another_handle', 'lock_wait')
+PROBES = ('own_temporary_directory', 'lifecycle', 'maxlen_discard', 'from_fanout', 'from_django', 'parent_calls', 'named_with_special_characters', 'changed_through_another_handle', 'loop_body_writes', 'lock_wait')
 TECHNIQUE = 'deterministic simulation (seeded file/temp names, simulated processes) + differential testing against collections.deque; seeded schedules + linearizability for concurrent use'
 LEVEL_TEXT = ('seeded exploration of method sequences with lifecycle events, each call compared with collections.deque; concurrent '
               'producer/consumer interleavings are explored by the seeded scheduler and decided by a linearizability search.')
@@ -109,7 +110,9 @@ def gen_case(seed, tier):
             op = {'op': 'maxlen', 'n': rng.choice((None, 0, 1, 3, 5))}
         elif r < 0.93:
             op = {'op': 'rotate_bad'}
-        elif r < 0.95:
+        elif r < 0.94:
+            op = {'op': 'iter_mutate', 'how': rng.choice(('assign', 'change-and-break'))}
+        elif r < 0.96:
             op = {'op': 'via_other', 'inner': rng.choice(({'op': 'delitem', 'i': rng.randint(-4, 4)}, {'op': 'remove', 'v': rng.choice(SMALL)},
                                                           {'op': 'setitem', 'i': rng.randint(-4, 4), 'v': rng.choice(SMALL)},
                                                           {'op': 'popleft'}, {'op': 'appendleft', 'v': rng.choice(SMALL)}))}
@@ -313,6 +316,23 @@ def run_seq(case):
                 got, want = pair[0], pair[1]
                 other.cache.close()
                 probes['changed_through_another_handle'] = probes.get('changed_through_another_handle', 0) + 1
+            elif name == 'iter_mutate':
+                # writes from inside a loop over the deque, through the same handle: item assignment at every step, or one
+                # change and out
+                def body(d):
+                    if op['how'] == 'assign':
+                        for i, x in enumerate(d):
+                            d[i] = x
+                            if i >= 3:
+                                break
+                    else:
+                        for x in d:
+                            d.append(x)
+                            d.popleft()
+                            break
+                    return list(d)
+                got, want = _norm(lambda: [fp(x) for x in body(dq)]), _norm(lambda: [fp(x) for x in body(ref)])
+                probes['loop_body_writes'] = probes.get('loop_body_writes', 0) + 1
             elif name == 'pickle':
                 dq = pickle.loads(pickle.dumps(dq))
                 if dq.maxlen != (float('inf') if maxlen is None else maxlen):
